@@ -280,11 +280,20 @@ def reader_acceptance(ctx, prog, rule):
         if not d or d[0] != "binop" or d[1] not in ("Eq", "Ne"):
             continue
         a, b = strip(d[2]), strip(d[3])
+        e = switch_edges(h, bi)
+        # the same test spelled (size / page) * page != size
+        for x, y in ((a, b), (b, a)):
+            xs = strip_casts(x)
+            if xs[0] == "binop" and xs[1] == "Mul" and strip(y)[0] == "call" and strip(y)[1].endswith("Seek::seek"):
+                for p_, q_ in ((xs[2], xs[3]), (xs[3], xs[2])):
+                    pd = strip_casts(p_)
+                    if pd[0] == "binop" and pd[1] == "Div" and strip(pd[2]) == strip(y) and strip_casts(pd[3]) == strip_casts(q_) == ("param", 2):
+                        unequal = (e.get("0") if d[1] == "Eq" else e.get("1", e["otherwise"]))
+                        checks["multiple-of-page"] = h.ok_reachable(start=[unequal]) is None
         if const_val(b) != 0:
             a, b = b, a
         if const_val(b) != 0:
             continue
-        e = switch_edges(h, bi)
         bad_succ = (e["otherwise"] if d[1] == "Eq" else e.get("0"))
         good_succ = (e.get("0") if d[1] == "Eq" else e["otherwise"])
         if a[0] == "call" and a[1].endswith("Seek::seek"):
